@@ -2,6 +2,7 @@
 import json
 import random
 
+import e2e_engine as E2E
 import vf
 
 TRUSTED = [
@@ -58,7 +59,19 @@ def run(rep, tier, seed, replay):
     d = vf.tmpdir("C17")
     cf = f"{d}/relay.cases"
     vf.write_lines(cf, [" | ".join([str(c["pl"])] + c["ops"]) for c in cases])
-    impl = vf.run_hx("relay", cf, timeout=3000)
+    # the relay's counters live in the process-wide default registry, one series per target port: reading them gets
+    # slower with every case a process has run, so the cases go through the harness in chunks of 1000, 8 at a time
+    lines = [" | ".join([str(c["pl"])] + c["ops"]) for c in cases]
+    chunks = [lines[k:k + 1000] for k in range(0, len(lines), 1000)]
+
+    def run_chunk(arg):
+        k, ch = arg
+        p = f"{d}/relay_{k}.cases"
+        vf.write_lines(p, ch)
+        return vf.run_hx("relay", p, timeout=1500)
+    from concurrent.futures import ThreadPoolExecutor
+    with ThreadPoolExecutor(max_workers=8) as ex:
+        impl = [x for part in ex.map(run_chunk, enumerate(chunks)) for x in part]
     model = vf.run_model("relay", cf)
     rep.count(len(cases))
     rep.cov["traces_validated_against_impl"] = len(cases)
@@ -112,6 +125,9 @@ def run(rep, tier, seed, replay):
                 rep.violation("implementation differs from the proved model (relay engine)", payload, no_input=True)
         if len(rep.violations) >= 5:
             break
+    if not replay and len(rep.violations) < 5:
+        E2E.run_relay_latency(rep, "C17")
+        rep.cov["rule"] += "; plus one real-time run of the built binary with --statsd.relay.address: 7 lines 300 ms apart, each must reach the sink within a second (the one-second tick)"
     rep.extra["disagreements_with_model"] = nbad
     rep.extra["with_send_failure"] = sum(1 for c in cases if c["failed"])
     rep.sample(dict(pl=cases[0]["pl"], ops=cases[0]["ops"][:8], impl=impl[0][:300]))
